@@ -64,7 +64,8 @@ Definition cert_sound_state (g : grammar) (a : automaton) (rk : list Z) (q : Z) 
           end) (a_trans a)
   end.
 
-(* the item set is closed under the closure step, and transitions lead to states containing the advanced item *)
+(* the item set is closed under the closure step, every symbol after a dot has a transition, and transitions
+   lead to states containing the advanced item *)
 Definition cert_complete_state (g : grammar) (a : automaton) (q : Z) (st : lstate) : bool :=
   let cl := st_items g st in
   forallb (fun it =>
@@ -73,7 +74,7 @@ Definition cert_complete_state (g : grammar) (a : automaton) (q : Z) (st : lstat
       | Some s =>
           (is_term g s || forallb (fun r => mem_item (r, 0) cl) (rules_of g s)) &&
           match trans_target a q s with
-          | None => true
+          | None => false         (* the collection is complete: every symbol after a dot has a transition *)
           | Some q' => (0 <=? q') &&
                        match nth_error (a_states a) (Z.to_nat q') with
                        | Some st' => mem_item (fst it, snd it + 1) (st_items g st')
